@@ -189,6 +189,11 @@ func initAllowed(p *ssa.Package) bool {
 func (it *Interp) resetPath(prefix []int) {
 	it.pc = nil
 	it.known = map[*Term]bool{}
+	it.lazyAlt = false
+	if n := len(prefix); n > 0 && (prefix[n-1] == markLazy || prefix[n-1] == markEager) {
+		it.lazyAlt = prefix[n-1] == markLazy
+		prefix = prefix[:n-1]
+	}
 	it.prefix = prefix
 	it.decisions = nil
 	it.globals = map[*ssa.Global]*Object{}
@@ -206,6 +211,8 @@ func (it *Interp) resetPath(prefix []int) {
 	it.modelMemo = nil
 	it.model = Model{}
 	it.modelMemo = map[*Term]*Term{}
+	it.pending = nil
+	it.normalEnd = false
 	it.pcVars = map[*Term]bool{}
 	it.pcSeen = map[*Term]bool{}
 	it.varRange = map[*Term][2]int64{}
@@ -222,6 +229,12 @@ func (it *Interp) runPath(fn *ssa.Function, prefix []int) (end string) {
 		r := recover()
 		it.killThreads()
 		rep.Steps += it.steps
+		feasible := it.finishPath()
+		if !feasible {
+			rep.Killed++
+			end = "killed: infeasible (found at path end)"
+			return
+		}
 		if r == nil {
 			return
 		}
@@ -277,8 +290,29 @@ func (it *Interp) runPath(fn *ssa.Function, prefix []int) (end string) {
 		}
 	}()
 	it.call(fn, nil, nil)
-	rep.Completed++
+	it.normalEnd = true
 	return "return"
+}
+
+// finishPath verifies feasibility of the path (if no model witnesses it) and discharges pending assertions.
+func (it *Interp) finishPath() (feasible bool) {
+	defer func() {
+		if r := recover(); r != nil {
+			it.rep.Internal = append(it.rep.Internal, fmt.Sprintf("finishPath: %v", r))
+			feasible = true
+		}
+	}()
+	if it.model == nil && len(it.pc) > 0 {
+		if it.checkModel(it.tb.True) == Unsat {
+			it.pending = nil
+			return false
+		}
+	}
+	it.flushAsserts()
+	if it.normalEnd {
+		it.rep.Completed++
+	}
+	return true
 }
 
 // sharedWork is the path worklist shared by the workers of one harness.
@@ -347,6 +381,8 @@ func (r *Report) merge(o *Report) {
 	r.PanicPaths += o.PanicPaths
 	r.BranchQueries += o.BranchQueries
 	r.Transitions += o.Transitions
+	r.AssertSyntactic += o.AssertSyntactic
+	r.AssertBatched += o.AssertBatched
 	r.UnknownBranches += o.UnknownBranches
 	r.MapRanges += o.MapRanges
 	r.Steps += o.Steps
@@ -414,6 +450,7 @@ func runHarness(prog *ssa.Program, pkgs map[string]*ssa.Package, cfg *HarnessCfg
 		if rev && rep.MapRanges == 0 {
 			break // no map with more than one entry was ranged over: order cannot matter
 		}
+		fst := &forkStat{}
 		sw := newSharedWork(cfg.MaxPaths - rep.Paths)
 		sw.push([]int{})
 		var wg sync.WaitGroup
@@ -432,12 +469,16 @@ func runHarness(prog *ssa.Program, pkgs map[string]*ssa.Package, cfg *HarnessCfg
 					slots <- struct{}{}
 					if it == nil {
 						wrep = newReport(cfg)
-						it = &Interp{prog: prog, tb: NewTB(), sizes: types.SizesFor("gc", "amd64"), fnInfos: map[*ssa.Function]*fnInfo{}, cfg: cfg, rep: wrep, initOK: initAllowed, shared: sw}
+						it = &Interp{prog: prog, tb: NewTB(), sizes: types.SizesFor("gc", "amd64"), fnInfos: map[*ssa.Function]*fnInfo{}, cfg: cfg, rep: wrep, initOK: initAllowed, shared: sw, fstat: fst}
 						if cfg.Mode == "math" {
 							it.mode = Math
 						}
 						it.funcHits = wrep.Funcs
 						it.sv = NewSolver(solverKind, cfg.TimeoutMs)
+						if it.mode == Bits {
+							// measured: 20x faster than z3's default strategy on the BV/FP queries produced here
+							it.sv.Tactic = "(then simplify fpa2bv simplify propagate-values solve-eqs bit-blast simplify sat)"
+						}
 						if p := os.Getenv("GOSYM_SMTLOG"); p != "" {
 							f, _ := os.Create(fmt.Sprintf("%s.%s.%d.smt2", p, cfg.Name, w))
 							it.sv.log = f
@@ -878,7 +919,7 @@ func main() {
 			"name": rep.Cfg.Name, "func": rep.Cfg.Func, "mode": rep.Cfg.Mode, "bounds": rep.Cfg.Bounds, "paths": rep.Paths, "completed": rep.Completed,
 			"killed_infeasible": rep.Killed, "panic_paths": rep.PanicPaths, "branch_queries": rep.BranchQueries,
 			"assert_queries": map[string]int{"unsat": rep.AssertQ[0], "sat": rep.AssertQ[1], "unknown": rep.AssertQ[2]},
-			"assertions": rep.AssertsSeen, "solver_time_s": rep.SolverTime, "wall_s": rep.Wall, "steps": rep.Steps,
+			"assertions":     rep.AssertsSeen, "assertions_decided_syntactically": rep.AssertSyntactic, "assertions_discharged_in_batched_queries": rep.AssertBatched, "solver_time_s": rep.SolverTime, "wall_s": rep.Wall, "steps": rep.Steps,
 			"outside_model": rep.Outside, "unwind": rep.Unwind, "inconclusive": rep.Inconclusive, "map_order": rep.Cfg.MapOrder, "sched": rep.Cfg.Sched,
 			"race_monitor": rep.Cfg.Race, "note": rep.Cfg.Note, "query_timeout_ms": rep.Cfg.TimeoutMs, "unwind_bound": rep.Cfg.Unwind,
 		})
